@@ -169,10 +169,10 @@ Section Comb.
     { destruct ops as [|[v x] r]; [congruence|]. cbn [map fst min_index] in Emi.
       change (oltb ROps (oneg ROps (o1 ROps)) (o0 ROps)) with (Rltb (-1) 0) in Emi.
       assert (Rltb (-1) 0 = true) as E by (apply Rltb_true; lra). rewrite E in Emi. cbn [orb] in Emi.
-      pose proof (min_index_range (map fst r) 1 (fst v) 0%nat ltac:(lia)) as R. rewrite Emi in R.
+      assert (R : (snd (md, mi) < 1 + length (map fst r))%nat) by (rewrite <- Emi; apply min_index_range; lia).
       cbn [snd] in R. rewrite map_length in R. cbn [length]. lia. }
     cbv beta iota zeta. rewrite prune_loop_kept.
-    set (vm := nth mi (map fst ops) (o0 ROps, o0 ROps)).
+    match goal with |- context [kept ?vm0 _ _ _] => set (vm := vm0) end.
     pose proof (kept_has_mi vm mi [] ops) as Hk. cbn [length] in Hk. rewrite Nat.sub_0_r in Hk.
     specialize (Hk ltac:(lia) ltac:(lia)).
     destruct (kept vm mi ops 0) as [|k ks] eqn:Ek; [destruct Hk|].
@@ -189,10 +189,358 @@ Section Comb.
     pose proof (fold_extend2_sub l (bb2 s0)) as [S0 S]. cbv zeta in S0, S.
     split; cbn [bb2 ev2].
     - eapply sub_box2_ordered; [|exact S0]. apply (Hl s0). now left.
-    - intros p. cbn [min_is_blend min_apply]. change (omin ROps) with Rmin.
+    - intros p.
+      match goal with |- _ <= ?v \/ _ => change v with (@evaluate ROps false Rmin (map (fun x : RObj2 => (box2_minmax (bb2 x) p, ev2 x p)) l)) end.
       pose proof (evaluate_plain_in (map (fun x : RObj2 => (box2_minmax (bb2 x) p, ev2 x p)) l)) as Hin.
       rewrite map_map in Hin. cbn [snd] in Hin. specialize (Hin ltac:(unfold l; discriminate)).
       apply in_map_iff in Hin. destruct Hin as (x & E & Hx). rewrite <- E.
       apply member2; [apply Hl, Hx | apply S, Hx].
   Qed.
 End Comb.
+
+(* ------------------------------------------------------------ Elongate *)
+Lemma clamp_bounds (x a b : R) : a <= b -> a <= @clamp ROps x a b <= b.
+Proof. intros H. unfold clamp; cbn. rcmp1; [lra|]. rcmp1; lra. Qed.
+
+Lemma translate2_ordered b v : ordered2 b -> ordered2 (box2_translate b v).
+Proof. unfold ordered2; cbn. lra. Qed.
+Lemma translate3_ordered b v : ordered3 b -> ordered3 (box3_translate b v).
+Proof. unfold ordered3; cbn. lra. Qed.
+Lemma translate2_in b (v p : RV2) : in_box2 b (mkV2 (vx p - vx v) (vy p - vy v)) -> in_box2 (box2_translate b v) p.
+Proof. unfold in_box2; cbn. lra. Qed.
+Lemma translate3_in b (v p : RV3) :
+  in_box3 b (mkV3 (wx p - wx v) (wy p - wy v) (wz p - wz v)) -> in_box3 (box3_translate b v) p.
+Proof. unfold in_box3; cbn. lra. Qed.
+
+(* a translate by a vector between two others lies in the hull of the two extreme translates *)
+Lemma translate2_between b (c u v : RV2) :
+  Rmin (vx u) (vx v) <= vx c <= Rmax (vx u) (vx v) -> Rmin (vy u) (vy v) <= vy c <= Rmax (vy u) (vy v) ->
+  sub_box2 (box2_translate b c) (box2_extend (box2_translate b u) (box2_translate b v)).
+Proof.
+  unfold sub_box2; cbn. intros Hx Hy. revert Hx Hy. unfold Rmin, Rmax.
+  repeat destruct (Rle_dec _ _); intros; lra.
+Qed.
+Lemma translate3_between b (c u v : RV3) :
+  Rmin (wx u) (wx v) <= wx c <= Rmax (wx u) (wx v) -> Rmin (wy u) (wy v) <= wy c <= Rmax (wy u) (wy v) ->
+  Rmin (wz u) (wz v) <= wz c <= Rmax (wz u) (wz v) ->
+  sub_box3 (box3_translate b c) (box3_extend (box3_translate b u) (box3_translate b v)).
+Proof.
+  unfold sub_box3; cbn. intros Hx Hy Hz.
+  assert (A : forall l a1 a2 c0, Rmin a1 a2 <= c0 -> Rmin (l + a1) (l + a2) <= l + c0)
+    by (intros l a1 a2 c0; unfold Rmin; repeat destruct (Rle_dec _ _); lra).
+  assert (B : forall l a1 a2 c0, c0 <= Rmax a1 a2 -> l + c0 <= Rmax (l + a1) (l + a2))
+    by (intros l a1 a2 c0; unfold Rmax; repeat destruct (Rle_dec _ _); lra).
+  repeat split; first [apply A | apply B]; tauto.
+Qed.
+
+Section Comb2.
+  Variable D2 : RBox2 -> RV2 -> R.
+  Variable D3 : RBox3 -> RV3 -> R.
+  Hypothesis M2 : Dmono2 D2.
+  Hypothesis M3 : Dmono3 D3.
+  Hypothesis T2 : Dtrans2 D2.
+  Hypothesis T3 : Dtrans3 D3.
+
+  (* the value at p is the operand's value at p - c, and the operand's box translated by c is inside B *)
+  Lemma shifted2 s B (c p : RV2) : cls2 D2 s -> sub_box2 (box2_translate (bb2 s) c) B ->
+    D2 B p <= ev2 s (mkV2 (vx p - vx c) (vy p - vy c)) \/ in_box2 B p.
+  Proof.
+    intros [_ H] Hs. destruct (H (mkV2 (vx p - vx c) (vy p - vy c))) as [Hd|Hin].
+    - left. pose proof (M2 _ _ p Hs) as A. rewrite T2 in A. lra.
+    - right. eapply sub_box2_in; [exact Hs|]. apply translate2_in, Hin.
+  Qed.
+  Lemma shifted3 s B (c p : RV3) : cls3 D3 s -> sub_box3 (box3_translate (bb3 s) c) B ->
+    D3 B p <= ev3 s (mkV3 (wx p - wx c) (wy p - wy c) (wz p - wz c)) \/ in_box3 B p.
+  Proof.
+    intros [_ H] Hs. destruct (H (mkV3 (wx p - wx c) (wy p - wy c) (wz p - wz c))) as [Hd|Hin].
+    - left. pose proof (M3 _ _ p Hs) as A. rewrite T3 in A. lra.
+    - right. eapply sub_box3_in; [exact Hs|]. apply translate3_in, Hin.
+  Qed.
+
+  Lemma elongate2_cls s h o : @k_elongate2 ROps s h = Some o -> cls2 D2 s -> cls2 D2 o.
+  Proof.
+    intros H Hs. unfold k_elongate2 in H; cbn in H. injection H as <-.
+    set (hx := Rabs (vx h)). set (hy := Rabs (vy h)).
+    assert (0 <= hx) by apply Rabs_pos. assert (0 <= hy) by apply Rabs_pos.
+    assert (Sub : forall c : RV2, hx * - (1 / (1 + 1)) <= vx c <= hx * (1 / (1 + 1)) ->
+                  hy * - (1 / (1 + 1)) <= vy c <= hy * (1 / (1 + 1)) ->
+      sub_box2 (box2_translate (bb2 s) c)
+        (box2_extend (box2_translate (bb2 s) (v2muls (v2abs h) (1 / (1 + 1))))
+                     (box2_translate (bb2 s) (v2muls (v2abs h) (- (1 / (1 + 1))))))).
+    { intros c Hx Hy. apply translate2_between; cbn; fold hx hy; unfold Rmin, Rmax; repeat destruct (Rle_dec _ _); lra. }
+    split; cbn [bb2 ev2].
+    - eapply sub_box2_ordered; [apply (translate2_ordered (bb2 s) (mkV2 0 0)), Hs|]. apply Sub; cbn; lra.
+    - intros p. apply shifted2 with (c := v2clamp p (v2muls (v2abs h) (- (1 / (1 + 1)))) (v2muls (v2abs h) (1 / (1 + 1)))); [exact Hs|].
+      apply Sub; cbn; fold hx hy; apply clamp_bounds; lra.
+  Qed.
+  Lemma elongate3_cls s h o : @k_elongate3 ROps s h = Some o -> cls3 D3 s -> cls3 D3 o.
+  Proof.
+    intros H Hs. unfold k_elongate3 in H; cbn in H. injection H as <-.
+    set (hx := Rabs (wx h)). set (hy := Rabs (wy h)). set (hz := Rabs (wz h)).
+    assert (0 <= hx) by apply Rabs_pos. assert (0 <= hy) by apply Rabs_pos. assert (0 <= hz) by apply Rabs_pos.
+    assert (Sub : forall c : RV3, hx * - (1 / (1 + 1)) <= wx c <= hx * (1 / (1 + 1)) ->
+                  hy * - (1 / (1 + 1)) <= wy c <= hy * (1 / (1 + 1)) ->
+                  hz * - (1 / (1 + 1)) <= wz c <= hz * (1 / (1 + 1)) ->
+      sub_box3 (box3_translate (bb3 s) c)
+        (box3_extend (box3_translate (bb3 s) (v3muls (v3abs h) (1 / (1 + 1))))
+                     (box3_translate (bb3 s) (v3muls (v3abs h) (- (1 / (1 + 1))))))).
+    { intros c Hx Hy Hz. apply translate3_between; cbn; fold hx hy hz; unfold Rmin, Rmax; repeat destruct (Rle_dec _ _); lra. }
+    split; cbn [bb3 ev3].
+    - eapply sub_box3_ordered; [apply (translate3_ordered (bb3 s) (mkV3 0 0 0)), Hs|]. apply Sub; cbn; lra.
+    - intros p. apply shifted3 with (c := v3clamp p (v3muls (v3abs h) (- (1 / (1 + 1)))) (v3muls (v3abs h) (1 / (1 + 1)))); [exact Hs|].
+      apply Sub; cbn; fold hx hy hz; apply clamp_bounds; lra.
+  Qed.
+End Comb2.
+
+(* ------------------------------------------------------------ ScaleUniform (k > 0)
+   For k < 0 the model (and the Go code) multiplies the value by k, i.e. turns the solid inside
+   out: the enclosure is then false (see scaleuniform_negative_refuted in EncloseAll.v). *)
+Definition scaled_box2 (b : RBox2) (k : R) : RBox2 := mkBox2 (v2muls (b2min b) k) (v2muls (b2max b) k).
+Definition scaled_box3 (b : RBox3) (k : R) : RBox3 := mkBox3 (v3muls (b3min b) k) (v3muls (b3max b) k).
+Definition Dscale2 (D : RBox2 -> RV2 -> R) :=
+  forall b k p, 0 < k -> D (scaled_box2 b k) p = k * D b (v2muls p (1 / k)).
+Definition Dscale3 (D : RBox3 -> RV3 -> R) :=
+  forall b k p, 0 < k -> D (scaled_box3 b k) p = k * D b (v3muls p (1 / k)).
+
+Lemma axd_scale lo hi k x : 0 < k -> axd (lo * k) (hi * k) x = k * axd lo hi (x * (1 / k)).
+Proof.
+  intros Hk. unfold axd. rewrite <- !RmaxRmult by lra. f_equal; [ring|]. f_equal; field; lra.
+Qed.
+Lemma D0_scale2 : Dscale2 D0_2.
+Proof. unfold Dscale2, D0_2; intros; ring. Qed.
+Lemma D0_scale3 : Dscale3 D0_3.
+Proof. unfold Dscale3, D0_3; intros; ring. Qed.
+Lemma Dinf_scale2 : Dscale2 boxdistinf2.
+Proof. intros b k p Hk. unfold boxdistinf2; cbn. rewrite !axd_scale by exact Hk. rewrite RmaxRmult by lra. reflexivity. Qed.
+Lemma Dinf_scale3 : Dscale3 boxdistinf3.
+Proof. intros b k p Hk. unfold boxdistinf3; cbn. rewrite !axd_scale by exact Hk. rewrite !RmaxRmult by lra. reflexivity. Qed.
+Lemma sqrt_scale k s : 0 < k -> 0 <= s -> sqrt (k * k * s) = k * sqrt s.
+Proof. intros Hk Hs. rewrite sqrt_mult by nra. rewrite sqrt_square by lra. reflexivity. Qed.
+Lemma D2_scale2 : Dscale2 boxdist2.
+Proof.
+  intros b k p Hk. unfold boxdist2; cbn. rewrite !axd_scale by exact Hk.
+  rewrite <- sqrt_scale by (try lra; nra). f_equal. ring.
+Qed.
+Lemma D2_scale3 : Dscale3 boxdist3.
+Proof.
+  intros b k p Hk. unfold boxdist3; cbn. rewrite !axd_scale by exact Hk.
+  rewrite <- sqrt_scale by (try lra; nra). f_equal. ring.
+Qed.
+
+Lemma scale2_box b k : 0 < k -> ordered2 b ->
+  m33_mulbox (@mk_scale2d ROps (mkV2 k k)) b = scaled_box2 b k.
+Proof.
+  intros Hk [Hx Hy]. unfold m33_mulbox, scaled_box2; cbn.
+  assert (0 <= k * (vx (b2max b) - vx (b2min b))) by (apply Rmult_le_pos; lra).
+  assert (0 <= k * (vy (b2max b) - vy (b2min b))) by (apply Rmult_le_pos; lra).
+  unfold v2add, v2min, v2max, v2muls; cbn.
+  f_equal; f_equal; unfold Rmin, Rmax; repeat destruct (Rle_dec _ _); lra.
+Qed.
+
+Lemma scaled2_ordered b k : 0 < k -> ordered2 b -> ordered2 (scaled_box2 b k).
+Proof. unfold ordered2; cbn. intros; split; nra. Qed.
+Lemma scaled3_ordered b k : 0 < k -> ordered3 b -> ordered3 (scaled_box3 b k).
+Proof. unfold ordered3; cbn. intros; repeat split; nra. Qed.
+Lemma scaled2_in b k (p : RV2) : 0 < k -> in_box2 b (v2muls p (1 / k)) -> in_box2 (scaled_box2 b k) p.
+Proof.
+  unfold in_box2; cbn. intros Hk H.
+  assert (E : forall x : R, x = x * (1 / k) * k) by (intros; field; lra).
+  rewrite (E (vx p)), (E (vy p)). split; split; apply Rmult_le_compat_r; lra.
+Qed.
+Lemma scaled3_in b k (p : RV3) : 0 < k -> in_box3 b (v3muls p (1 / k)) -> in_box3 (scaled_box3 b k) p.
+Proof.
+  unfold in_box3; cbn. intros Hk H.
+  assert (E : forall x : R, x = x * (1 / k) * k) by (intros; field; lra).
+  rewrite (E (wx p)), (E (wy p)), (E (wz p)). repeat split; apply Rmult_le_compat_r; lra.
+Qed.
+
+Lemma scaleuniform2_cls D s k o : Dscale2 D -> 0 < k ->
+  @k_scaleuniform2 ROps s k = Some o -> cls2 D s -> cls2 D o.
+Proof.
+  intros DS Hk H [Ho Hs]. unfold k_scaleuniform2 in H. injection H as <-.
+  rewrite (scale2_box _ _ Hk Ho). split; cbn [bb2 ev2].
+  - apply scaled2_ordered; assumption.
+  - intros p. destruct (Hs (v2muls p (o1 ROps / k))) as [Hd|Hin].
+    + left. rewrite (DS _ _ p Hk). change (omul ROps) with Rmult. change (o1 ROps / k) with (1 / k) in *. nra.
+    + right. apply scaled2_in; assumption.
+Qed.
+
+Lemma scale3_box b k : 0 < k -> ordered3 b ->
+  m44_mulbox (@mk_scale3d ROps (mkV3 k k k)) b = scaled_box3 b k.
+Proof.
+  intros Hk (Hx & Hy & Hz). unfold m44_mulbox, scaled_box3; cbn.
+  assert (0 <= k * (wx (b3max b) - wx (b3min b))) by (apply Rmult_le_pos; lra).
+  assert (0 <= k * (wy (b3max b) - wy (b3min b))) by (apply Rmult_le_pos; lra).
+  assert (0 <= k * (wz (b3max b) - wz (b3min b))) by (apply Rmult_le_pos; lra).
+  unfold v3add, v3min, v3max, v3muls; cbn.
+  f_equal; f_equal; unfold Rmin, Rmax; repeat destruct (Rle_dec _ _); lra.
+Qed.
+
+Lemma scaleuniform3_cls D s k o : Dscale3 D -> 0 < k ->
+  @k_scaleuniform3 ROps s k = Some o -> cls3 D s -> cls3 D o.
+Proof.
+  intros DS Hk H [Ho Hs]. unfold k_scaleuniform3 in H. injection H as <-.
+  rewrite (scale3_box _ _ Hk Ho). split; cbn [bb3 ev3].
+  - apply scaled3_ordered; assumption.
+  - intros p. destruct (Hs (v3muls p (o1 ROps / k))) as [Hd|Hin].
+    + left. rewrite (DS _ _ p Hk). change (omul ROps) with Rmult. change (o1 ROps / k) with (1 / k) in *. nra.
+    + right. apply scaled3_in; assumption.
+Qed.
+
+(* ------------------------------------------------------------ Offset (offset >= 0), Shell
+   The operand must be in the class lbinf (or lb2, which is contained in it): outside its box its
+   value dominates the max-norm distance to the box.  The result is again in lbinf. *)
+Lemma offset2_lbinf s off o : 0 <= off -> @k_offset2 ROps s off = Some o -> lbinf_2 s -> lbinf_2 o.
+Proof.
+  intros Hoff H Hs. unfold k_offset2 in H; cbn in H. injection H as <-.
+  destruct Hs as [Ho Hs']. pose proof (conj Ho Hs' : lbinf_2 s) as Hs. destruct Ho as [Hx Hy].
+  apply lbinf2_intro; cbn [bb2 ev2]; [unfold ordered2; cbn; lra|].
+  intros p Hout.
+  assert (Hout' : ~ in_box2 (bb2 s) p) by (intros Hin; apply Hout; revert Hin; unfold in_box2; cbn; lra).
+  pose proof (lbinf2_elim s p Hs Hout') as (A & B & C & D). unfold slab2; cbn. repeat split; lra.
+Qed.
+Lemma offset3_lbinf s off o : 0 <= off -> @k_offset3 ROps s off = Some o -> lbinf_3 s -> lbinf_3 o.
+Proof.
+  intros Hoff H Hs. unfold k_offset3 in H; cbn in H. injection H as <-.
+  destruct Hs as [Ho Hs']. pose proof (conj Ho Hs' : lbinf_3 s) as Hs. destruct Ho as (Hx & Hy & Hz).
+  apply lbinf3_intro; cbn [bb3 ev3]; [unfold ordered3; cbn; lra|].
+  intros p Hout.
+  assert (Hout' : ~ in_box3 (bb3 s) p) by (intros Hin; apply Hout; revert Hin; unfold in_box3; cbn; lra).
+  pose proof (lbinf3_elim s p Hs Hout') as (A & B & C & D & E & F). unfold slab3; cbn. repeat split; lra.
+Qed.
+Lemma shell3_lbinf s th o : @k_shell3 ROps s th = Some o -> lbinf_3 s -> lbinf_3 o.
+Proof.
+  intros H Hs. unfold k_shell3 in H; cbn in H. kinv H. bfalse.
+  destruct Hs as [Ho Hs']. pose proof (conj Ho Hs' : lbinf_3 s) as Hs. destruct Ho as (Hx & Hy & Hz).
+  apply lbinf3_intro; cbn [bb3 ev3]; [unfold ordered3; cbn; lra|].
+  intros p Hout.
+  assert (Hout' : ~ in_box3 (bb3 s) p) by (intros Hin; apply Hout; revert Hin; unfold in_box3; cbn; lra).
+  pose proof (lbinf3_elim s p Hs Hout') as (A & B & C & D & E & F). unfold slab3; cbn.
+  pose proof (Rabs_ge_l (ev3 s p)). repeat split; lra.
+Qed.
+
+(* ------------------------------------------------------------ Array (plain minimum): enclosure.
+   The loops start from the sentinel MaxFloat64, so the result is min(sentinel, values): a negative
+   result is the value of one translated copy.  (The classes lbinf/lb2 are not claimed for arrays:
+   farther than MaxFloat64 from the material the real-number model returns the sentinel.) *)
+Lemma count_loop_inv {A} (P : A -> Prop) n : forall i (F : Z -> A -> A) acc,
+  P acc -> (forall j d, (i <= j < i + Z.of_nat n)%Z -> P d -> P (F j d)) -> P (count_loop n i F acc).
+Proof.
+  induction n as [|n IH]; intros i F acc Ha HF; cbn [count_loop]; [exact Ha|].
+  apply IH; [apply HF; [lia | exact Ha]|]. intros j d Hj. apply HF. lia.
+Qed.
+
+Lemma step_between (n j s : R) : 0 <= j <= n -> Rmin 0 (s * n) <= j * s <= Rmax 0 (s * n).
+Proof.
+  intros Hj. unfold Rmin, Rmax. destruct (Rle_dec 0 (s * n)).
+  - destruct (Rle_dec 0 s); [nra|]. assert (n = 0 \/ 0 < n) as [->|Hn] by lra; nra.
+  - destruct (Rle_dec 0 s); nra.
+Qed.
+
+Lemma array2_enc s nx ny step o :
+  @k_array2 ROps MinDef s nx ny step = Some o -> enc2 s -> enc2 o.
+Proof.
+  intros H [Ho Hs]. unfold k_array2 in H. kinv H. apply orb_false_iff in K. destruct K as [K1 K2].
+  apply Z.leb_gt in K1, K2. cbn [min_apply].
+  set (B := box2_extend _ _).
+  assert (Sub : forall j k, (0 <= j < nx)%Z -> (0 <= k < ny)%Z ->
+            sub_box2 (box2_translate (bb2 s) (mkV2 (IZR j * vx step) (IZR k * vy step))) B).
+  { intros j k Hj Hk. unfold B.
+    assert (Jx : 0 <= IZR j <= IZR (nx - 1)) by (split; apply IZR_le; lia).
+    assert (Jy : 0 <= IZR k <= IZR (ny - 1)) by (split; apply IZR_le; lia).
+    pose proof (step_between _ _ (vx step) Jx) as Sx. pose proof (step_between _ _ (vy step) Jy) as Sy.
+    unfold sub_box2; cbn. change (IZR (nx - 1)) with (ofZ ROps (nx - 1)) in *.
+    change (IZR (ny - 1)) with (ofZ ROps (ny - 1)) in *.
+    revert Sx Sy. unfold Rmin, Rmax. repeat destruct (Rle_dec _ _); intros; lra. }
+  split; cbn [bb2 ev2].
+  - eapply sub_box2_ordered; [|apply (Sub 0%Z 0%Z); lia]. apply translate2_ordered, Ho.
+  - intros p. apply (count_loop_inv (fun d => d < 0 -> in_box2 B p)); [intros Hm; exfalso|].
+    { change (omaxf ROps) with Rmaxfloat in Hm. unfold Rmaxfloat in Hm.
+      assert (0 <= IZR (2 ^ 1024 - 2 ^ 971)) by (apply IZR_le; lia). lra. }
+    intros j d Hj Hd. apply count_loop_inv; [exact Hd|]. intros k d' Hk Hd'.
+    change (omin ROps) with Rmin. intros Hlt.
+    unfold Rmin in Hlt; destruct (Rle_dec _ _); [auto|].
+    eapply sub_box2_in; [apply (Sub j k); lia|]. apply translate2_in. apply Hs. exact Hlt.
+Qed.
+
+Lemma sentinel_nonneg : 0 <= omaxf ROps.
+Proof. change (omaxf ROps) with Rmaxfloat. unfold Rmaxfloat. apply IZR_le; lia. Qed.
+
+Lemma array3_enc s nx ny nz step o :
+  @k_array3 ROps MinDef s nx ny nz step = Some o -> enc3 s -> enc3 o.
+Proof.
+  intros H [Ho Hs]. unfold k_array3 in H. kinv H.
+  apply orb_false_iff in K. destruct K as [K K3]. apply orb_false_iff in K. destruct K as [K1 K2].
+  apply Z.leb_gt in K1, K2, K3. cbn [min_apply].
+  set (B := box3_extend _ _).
+  assert (Sub : forall j k l, (0 <= j < nx)%Z -> (0 <= k < ny)%Z -> (0 <= l < nz)%Z ->
+            sub_box3 (box3_translate (bb3 s) (mkV3 (IZR j * wx step) (IZR k * wy step) (IZR l * wz step))) B).
+  { intros j k l Hj Hk Hl. unfold B.
+    assert (Jx : 0 <= IZR j <= IZR (nx - 1)) by (split; apply IZR_le; lia).
+    assert (Jy : 0 <= IZR k <= IZR (ny - 1)) by (split; apply IZR_le; lia).
+    assert (Jz : 0 <= IZR l <= IZR (nz - 1)) by (split; apply IZR_le; lia).
+    pose proof (step_between _ _ (wx step) Jx) as Sx. pose proof (step_between _ _ (wy step) Jy) as Sy.
+    pose proof (step_between _ _ (wz step) Jz) as Sz.
+    unfold sub_box3; cbn. change (IZR (nx - 1)) with (ofZ ROps (nx - 1)) in *.
+    change (IZR (ny - 1)) with (ofZ ROps (ny - 1)) in *. change (IZR (nz - 1)) with (ofZ ROps (nz - 1)) in *.
+    assert (A : forall lo a c : R, Rmin 0 a <= c -> Rmin lo (lo + a) <= lo + c)
+      by (intros lo a c; unfold Rmin; repeat destruct (Rle_dec _ _); lra).
+    assert (A' : forall hi a c : R, c <= Rmax 0 a -> hi + c <= Rmax hi (hi + a))
+      by (intros hi a c; unfold Rmax; repeat destruct (Rle_dec _ _); lra).
+    repeat split; first [apply A | apply A']; tauto. }
+  split; cbn [bb3 ev3].
+  - eapply sub_box3_ordered; [|apply (Sub 0%Z 0%Z 0%Z); lia]. apply translate3_ordered, Ho.
+  - intros p. apply (count_loop_inv (fun d => d < 0 -> in_box3 B p)); [intros Hm; exfalso|].
+    { pose proof sentinel_nonneg as SN. change (omaxf ROps) with Rmaxfloat in *. lra. }
+    intros j d Hj Hd. apply count_loop_inv; [exact Hd|]. intros k d' Hk Hd'.
+    apply count_loop_inv; [exact Hd'|]. intros l d'' Hl Hd''.
+    change (omin ROps) with Rmin. intros Hlt.
+    unfold Rmin in Hlt; destruct (Rle_dec _ _); [auto|].
+    eapply sub_box3_in; [apply (Sub j k l); lia|]. apply translate3_in. apply Hs. exact Hlt.
+Qed.
+
+(* ------------------------------------------------------------ instances: enclosure / lbinf / lb2 *)
+Lemma all_enc3_cls (l : list RObj3) : (forall x, In x l -> enc3 x) -> forall x, In x l -> cls3 D0_3 x.
+Proof. intros H x Hx. apply enc3_cls, H, Hx. Qed.
+Lemma all_enc2_cls (l : list RObj2) : (forall x, In x l -> enc2 x) -> forall x, In x l -> cls2 D0_2 x.
+Proof. intros H x Hx. apply enc2_cls, H, Hx. Qed.
+
+Theorem union3_enc l o : (forall x, In x l -> enc3 x) -> @k_union3 ROps MinDef l = Some o -> enc3 o.
+Proof. intros Hl H. apply enc3_cls. eapply union3_cls; [apply D0_mono3 | apply all_enc3_cls, Hl | exact H]. Qed.
+Theorem union2_enc l o : (forall x, In x l -> enc2 x) -> @k_union2 ROps MinDef l = Some o -> enc2 o.
+Proof. intros Hl H. apply enc2_cls. eapply union2_cls; [apply D0_mono2 | apply all_enc2_cls, Hl | exact H]. Qed.
+Theorem union3_lbinf l o : (forall x, In x l -> lbinf_3 x) -> @k_union3 ROps MinDef l = Some o -> lbinf_3 o.
+Proof. intros Hl H. eapply union3_cls; [apply Dinf_mono3 | exact Hl | exact H]. Qed.
+Theorem union2_lbinf l o : (forall x, In x l -> lbinf_2 x) -> @k_union2 ROps MinDef l = Some o -> lbinf_2 o.
+Proof. intros Hl H. eapply union2_cls; [apply Dinf_mono2 | exact Hl | exact H]. Qed.
+Theorem union3_lb2 l o : (forall x, In x l -> lb2_3 x) -> @k_union3 ROps MinDef l = Some o -> lb2_3 o.
+Proof. intros Hl H. eapply union3_cls; [apply D2_mono3 | exact Hl | exact H]. Qed.
+Theorem union2_lb2 l o : (forall x, In x l -> lb2_2 x) -> @k_union2 ROps MinDef l = Some o -> lb2_2 o.
+Proof. intros Hl H. eapply union2_cls; [apply D2_mono2 | exact Hl | exact H]. Qed.
+
+Theorem intersect2_enc m s0 s1 o : max_ok m -> @k_intersect2 ROps m s0 s1 = Some o -> enc2 s0 -> enc2 o.
+Proof. intros Hm H H0. apply enc2_cls. eapply intersect2_cls; [exact Hm | exact H | apply enc2_cls, H0]. Qed.
+Theorem intersect3_enc m s0 s1 o : max_ok m -> @k_intersect3 ROps m s0 s1 = Some o -> enc3 s0 -> enc3 o.
+Proof. intros Hm H H0. apply enc3_cls. eapply intersect3_cls; [exact Hm | exact H | apply enc3_cls, H0]. Qed.
+Theorem difference2_enc m s0 s1 o : max_ok m -> @k_difference2 ROps m s0 s1 = Some o -> enc2 s0 -> enc2 o.
+Proof. intros Hm H H0. apply enc2_cls. eapply difference2_cls; [exact Hm | exact H | apply enc2_cls, H0]. Qed.
+Theorem difference3_enc m s0 s1 o : max_ok m -> @k_difference3 ROps m s0 s1 = Some o -> enc3 s0 -> enc3 o.
+Proof. intros Hm H H0. apply enc3_cls. eapply difference3_cls; [exact Hm | exact H | apply enc3_cls, H0]. Qed.
+Theorem cut2_enc s a v o : @k_cut2 ROps s a v = Some o -> enc2 s -> enc2 o.
+Proof. intros H H0. apply enc2_cls. eapply cut2_cls; [exact H | apply enc2_cls, H0]. Qed.
+Theorem cut3_enc s a n o : @k_cut3 ROps s a n = Some o -> enc3 s -> enc3 o.
+Proof. intros H H0. apply enc3_cls. eapply cut3_cls; [exact H | apply enc3_cls, H0]. Qed.
+Theorem elongate2_enc s h o : @k_elongate2 ROps s h = Some o -> enc2 s -> enc2 o.
+Proof. intros H H0. apply enc2_cls. eapply elongate2_cls; [apply D0_mono2 | apply D0_trans2 | exact H | apply enc2_cls, H0]. Qed.
+Theorem elongate3_enc s h o : @k_elongate3 ROps s h = Some o -> enc3 s -> enc3 o.
+Proof. intros H H0. apply enc3_cls. eapply elongate3_cls; [apply D0_mono3 | apply D0_trans3 | exact H | apply enc3_cls, H0]. Qed.
+Theorem scaleuniform2_enc s k o : 0 < k -> @k_scaleuniform2 ROps s k = Some o -> enc2 s -> enc2 o.
+Proof. intros Hk H H0. apply enc2_cls. eapply scaleuniform2_cls; [apply D0_scale2 | exact Hk | exact H | apply enc2_cls, H0]. Qed.
+Theorem scaleuniform3_enc s k o : 0 < k -> @k_scaleuniform3 ROps s k = Some o -> enc3 s -> enc3 o.
+Proof. intros Hk H H0. apply enc3_cls. eapply scaleuniform3_cls; [apply D0_scale3 | exact Hk | exact H | apply enc3_cls, H0]. Qed.
+Theorem offset2_enc s off o : 0 <= off -> @k_offset2 ROps s off = Some o -> lbinf_2 s -> enc2 o.
+Proof. intros Hoff H Hs. apply lbinf2_enc. eapply offset2_lbinf; eassumption. Qed.
+Theorem offset3_enc s off o : 0 <= off -> @k_offset3 ROps s off = Some o -> lbinf_3 s -> enc3 o.
+Proof. intros Hoff H Hs. apply lbinf3_enc. eapply offset3_lbinf; eassumption. Qed.
+Theorem shell3_enc s th o : @k_shell3 ROps s th = Some o -> lbinf_3 s -> enc3 o.
+Proof. intros H Hs. apply lbinf3_enc. eapply shell3_lbinf; eassumption. Qed.
